@@ -74,14 +74,15 @@ Print Assumptions C04_refused_gets_no_bytes.
 (* (5) the finite table the harness drives through the real SessionManager.HandlePacket — identity (5) x named mapping
    (3) x secret (10: none, right, unrelated, strict prefixes, suffix, right+1, case-flipped, one character changed, another
    mapping's secret) x resume token (2) x state of the named mapping (10: active, revoked, expired an hour / 25 s / 10 s / 2 s / 1 ms ago, expiring in 60 s, inactive, missing)
-   x tunnel state at arrival (4) = 12000 cells, the
+   x tunnel state at arrival (4) = 12000 cells for ordinary mappings, plus the mapping-party dimension (stored listening client id 0 = server-side
+   listener; stored target client id 0) on a 2 x 5 x 3 x 4 x 3 x 3 = 1080-cell sub-table: 13080 cells, the
    bound being exactly the cell type: on every cell an attachment implies entitlement, and a request that is not
    entitled is refused WITH a failure acknowledgement *)
 Theorem C04_table_all_cells :
-  N.of_nat (length all_cells) = 12000%N /\
+  N.of_nat (length all_cells) = 13080%N /\
   (forall c, In c all_cells -> cell_ok current c = true) /\
   (forall c : cell, attaches (cell_open current c) = true -> cell_entitled c = true) /\
-  (forall c : cell, cell_entitled c = false -> cell_open current c = Refuse true).
+  (forall c : cell, In c all_cells -> cell_entitled c = false -> cell_open current c = Refuse true).
 Proof. exact (conj table_size (conj table_cells_ok (conj cell_attach_entitled cell_unentitled_failure_ack))). Qed.
 Print Assumptions C04_table_all_cells.
 
@@ -260,4 +261,24 @@ Theorem C04_every_unattached_request_gets_failure_ack_refuted :
   ~ C04_every_unattached_request_gets_failure_ack_full_statement.
 Proof. exact unattached_not_always_refused. Qed.
 Print Assumptions C04_every_unattached_request_gets_failure_ack_refuted.
+
+(* (11) mappings whose stored party id is 0 (server-side listener: listening client id 0; no target client: target id 0).  An
+   unauthenticated connection also has client id 0, and (10) `C04_unauthenticated_never_attaches` holds for EVERY store, these
+   mappings included (it has no hypothesis on the store).  Witnesses on the table cells with that party dimension, and the reason the
+   early client-id test cannot be dropped: the party tests of both credential paths accept id 0 for such a mapping. *)
+Theorem C04_server_side_listener_witness :
+  cell_open current (pc IdHalf SNone TNone PListen0) = Refuse true /\
+  cell_open current (pc IdHalf SRight TWaiting PListen0) = Refuse true /\
+  cell_open current (pc IdNone SRight TRemote PListen0) = Refuse true /\
+  cell_open current (pc IdHalf SRight TWaiting PTarget0) = Refuse true /\
+  attaches (cell_open current (pc IdTarget SRight TWaiting PListen0)) = true /\
+  attaches (cell_open current (pc IdListen SNone TNone PTarget0)) = true.
+Proof. exact server_side_listener_witness. Qed.
+Print Assumptions C04_server_side_listener_witness.
+
+Theorem C04_client_id_guard_is_not_redundant :
+  exists m, is_valid m = true /\ can_be_accessed_by m 0 = true /\
+            (negb (N.eqb (m_listen m) 0) && negb (N.eqb (m_target m) 0)) = false.
+Proof. exact client_id_guard_not_redundant. Qed.
+Print Assumptions C04_client_id_guard_is_not_redundant.
 Close Scope N_scope.
